@@ -55,6 +55,22 @@ def np_step(spec: NetSpec, val: dict, P: dict, opts: dict = None, scalar_shape="
     return to_lists(raw), built, raw
 
 
+def np_manual_steps(spec: NetSpec, vals_seq, P: dict, built: Built = None):
+    """Steps the network element by element through the public per-element API (init_vars / step of every element,
+    in the network's own enumeration order: links first, then origins, then destinations), once per value vector of
+    `vals_seq`, on the same objects.  Returns the next states after the last one."""
+    if built is None:
+        built = build(spec)
+    eng = env.numpy_engine()
+    for val in vals_seq:
+        ic = np_inputs(built, val)
+        for el in built.net.elements:
+            el.init_vars(init_conditions=ic.get(el), engine=eng)
+        for el in built.net.elements:
+            el.step(net=built.net, engine=eng, positive_next_speed=False, **P)
+    return to_lists(read_next(built)), built
+
+
 class Compiled:
     """A compiled function at compact=0 with name-based access to arguments/results."""
 
